@@ -223,7 +223,7 @@ class Run:
         }
         evdir = os.path.join(VERIF, 'evidence')
         os.makedirs(evdir, exist_ok=True)
-        if os.path.realpath(self.repo.root) == '/repo' or os.environ.get('PCVERIF_WRITE_EVIDENCE'):
+        if (os.path.realpath(self.repo.root) == '/repo' and not os.environ.get('PCVERIF_NO_EVIDENCE')) or os.environ.get('PCVERIF_WRITE_EVIDENCE'):
             with open(os.path.join(evdir, '%s.json' % self.prop), 'w') as fh:
                 json.dump(ev, fh, indent=1, default=str)
         if not self.quiet:
